@@ -454,7 +454,9 @@ func (p *sessionPool) run(sp sessionSpec) sessionResult {
 	defer func() { <-p.sem }()
 	p.mu.Lock()
 	var w *worker
-	if n := len(p.idle); n > 0 {
+	// a session that kills its own process gets a process of its own: an idle worker may still
+	// be finishing the asynchronous clean-up of an earlier session
+	if n := len(p.idle); n > 0 && sp.KillAt <= 0 {
 		w, p.idle = p.idle[n-1], p.idle[:n-1]
 	}
 	p.mu.Unlock()
